@@ -93,33 +93,63 @@ func propC05(c *Ctx) {
 		}
 	}
 	c.Check("R5.1", "Converge/dependency-switch", conv.Pos(), len(hasDeps) > 0 && m.guarded(dep, hasDeps), "latestDependency is consulted exactly when len(Dependencies) > 0")
-	depZero, depNonZero := m.cmpEdges(func(b *ssa.BinOp) bool {
-		n, ok := constInt(b.Y)
-		return b.Op == token.EQL && b.X == depNum && ok && n == 0
-	})
-	zeroRet := len(depZero) > 0
-	for _, e := range depZero {
-		r, _ := reach(Site{e.To, -1}, isInstr(ld), nil)
-		if r {
-			zeroRet = false
+	// what Converge does when latestDependency leaves through a given return statement (scenario.go):
+	// the representation of "no position yet" – 0, a zero struct with a method, a sentinel error – does not matter
+	ldf := m.latestDep
+	loadReachableAfter := func(ret *ssa.Return, errNonNil bool) bool {
+		vals := append([]ssa.Value{}, returnValues(ret)...)
+		if errNonNil && len(vals) > 0 {
+			if _, g := (&retScenario{reg: m.reg, call: dep, vals: vals}).errFact(extractOf(dep, len(vals)-1)); g == nil {
+				// an error that is not a sentinel: stands for any non-nil error
+				vals[len(vals)-1] = nonNilErrorMarker(ldf)
+			}
 		}
-		// every return reachable from the arm carries a non-nil error …
-		if g, _ := errorArmLeaves(e.From.Parent(), e, nil, nil); !g {
-			zeroRet = false
+		sc := &retScenario{reg: m.reg, call: dep, vals: vals}
+		hit, _ := reach(siteOf(dep), isInstr(ld), sc.cuts())
+		return hit
+	}
+	var depScanErr *ssa.Call
+	for _, ci := range callsIn(ldf) {
+		if call, ok := ci.(*ssa.Call); ok && call.Call.IsInvoke() && call.Call.Method.Name() == "Scan" {
+			depScanErr = call
 		}
-		// … and when the test lives in a helper, its callers hand the error on
-		if f := e.From.Parent(); f != conv {
-			for cur := f; cur != conv; {
-				cs, _ := m.reg.site[cur].(*ssa.Call)
-				if cs == nil || !callErrorArmReturns(cs) {
-					zeroRet = false
-					break
+	}
+	returnsFrom := func(edges []Edge) []*ssa.Return {
+		var out []*ssa.Return
+		seen := map[*ssa.Return]bool{}
+		for _, e := range edges {
+			reach(Site{e.To, -1}, func(in ssa.Instruction) bool {
+				if r, ok := in.(*ssa.Return); ok && !seen[r] {
+					seen[r] = true
+					out = append(out, r)
 				}
-				cur = cs.Parent()
+				return false
+			}, nil)
+		}
+		return out
+	}
+	zeroRet := false
+	if depScanErr != nil {
+		var noRows []Edge
+		for _, ref := range *depScanErr.Referrers() {
+			if call, ok := ref.(*ssa.Call); ok && calleeName(call) == "errors.Is" {
+				if u, ok := call.Call.Args[1].(*ssa.UnOp); ok {
+					if g, ok := u.X.(*ssa.Global); ok && g.Name() == "ErrNoRows" {
+						t, _ := boolEdges(call)
+						noRows = append(noRows, t...)
+					}
+				}
+			}
+		}
+		rets := returnsFrom(noRows)
+		zeroRet = len(rets) > 0
+		for _, r := range rets {
+			if loadReachableAfter(r, false) {
+				zeroRet = false
 			}
 		}
 	}
-	c.Check("R5.1", "Converge/no-dependency-progress→nothing-new", dep.Pos(), zeroRet, "dependency position 0 returns without loading")
+	c.Check("R5.1", "Converge/no-dependency-progress→nothing-new", dep.Pos(), zeroRet, "when no referenced integration has a position the step returns without loading")
 	gethNum := m.headNum()
 	depBelow, depNotBelow := m.cmpEdges(func(b *ssa.BinOp) bool {
 		return (b.Op == token.LSS && b.X == depNum && b.Y == gethNum)
@@ -131,45 +161,51 @@ func propC05(c *Ctx) {
 	// min(head, dep) are the same thing
 	_ = depBelow
 	_ = depNotBelow
+	sc0 := &retScenario{reg: m.reg, call: dep}
+	isDepNum := func(v ssa.Value) bool {
+		if v == depNum {
+			return true // the number itself, or the struct result standing for its number field (opaque below)
+		}
+		idx, path, ok := sc0.origin(v)
+		if !ok || idx != 0 || !isIntType(v.Type()) {
+			return false
+		}
+		return len(path) <= 1
+	}
 	ub := &ubound{fn: conv, vac: noDeps, reg: m.reg}
-	bounded := ub.Bounded(target, func(v ssa.Value) bool { return v == depNum })
+	// the position handed back as a small struct: its fields are not looked for inside latestDependency
+	ub.opaque = func(sv ssa.Value, fld int) ssa.Value {
+		if sv == depNum {
+			return sv
+		}
+		return nil
+	}
+	bounded := ub.Bounded(target, isDepNum)
 	c.Check("R5.1", "Converge/target-bounded-by-dependency-position", ld.Pos(), bounded,
 		"whenever the integration has dependencies, the step target is at most the position read from them")
-	// the dependency position is used only after its read succeeded and said > 0
+	// a failed read never reaches load
 	okUse := depErr != nil
 	if depErr != nil {
-		for _, ref := range *depNum.Referrers() {
-			if _, dbg := ref.(*ssa.DebugRef); dbg {
+		pf := newPathFacts(ldf)
+		n := 0
+		for _, r := range returnsOf(ldf) {
+			vals := returnValues(r)
+			last := vals[len(vals)-1]
+			st := pf.At(r)
+			if !(definitelyNonNilError(last, nil) || (st != nil && st.knownNonNil(last))) {
 				continue
 			}
-			if b, isB := ref.(*ssa.BinOp); isB && b.Op == token.EQL {
-				if n, ok := constInt(b.Y); ok && n == 0 {
-					if !testedNilBefore(depErr, ref) {
-						okUse = false
-					}
-					continue // the zero test itself
-				}
-			}
-			at := ref
-			if ph, isPhi := ref.(*ssa.Phi); isPhi {
-				// used as the incoming value of an edge: judged at the end of the predecessor
-				for i, e := range ph.Edges {
-					if e == depNum {
-						at = terminator(ph.Block().Preds[i])
-						if !(testedNilBefore(depErr, at) && edgeGuarded(conv, ph.Block().Preds[i], ph.Block(), depNonZero)) {
-							okUse = false
-						}
-					}
-				}
-				continue
-			}
-			if !(testedNilBefore(depErr, at) && m.guarded(at, depNonZero)) {
+			n++
+			if loadReachableAfter(r, true) {
 				okUse = false
 			}
 		}
+		if n == 0 {
+			okUse = false
+		}
 	}
 	c.Check("R5.1", "Converge/dependency-position-used-after-error-and-zero-tests", dep.Pos(), okUse,
-		"the dependency position is compared or assigned only after the read's error was tested nil and the position was found non-zero")
+		"a failed read of the dependency position never reaches load")
 
 	// ---- R5.2 ---------------------------------------------------------
 	c.Rule("R5.2", "the dependency read is keyed: src_name = $i ← Task.srcName, ig_name = ANY($j) ← destConfig.Dependencies", 2)
@@ -223,6 +259,7 @@ func propC05(c *Ctx) {
 		c.Check("R5.5", "latestDependency/counts-found-dependencies", ld.Pos(), hasCount && len(scanCells) >= 3, "the query also returns how many referenced integrations have a position")
 		// found < number of registered dependencies → return position 0
 		okCmp := false
+		var missingEdges []Edge
 		allInstrs(ld, func(in ssa.Instruction) {
 			b, ok := in.(*ssa.BinOp)
 			if !ok || (b.Op != token.LSS && b.Op != token.NEQ) {
@@ -261,17 +298,20 @@ func propC05(c *Ctx) {
 			if !fromDeps {
 				return
 			}
-			t, _ := boolEdges(b)
-			for _, e := range t {
-				if ret, ok := terminator(e.To).(*ssa.Return); ok {
-					vals := returnValues(ret)
-					if k, ok := constInt(vals[0]); ok && k == 0 && isNilConst(vals[2]) {
-						okCmp = true
-					}
-				}
+			t, f := boolEdges(b)
+			if b.Op == token.NEQ || b.Op == token.LSS {
+				missingEdges = append(missingEdges, t...)
 			}
+			_ = f
 		})
-		c.Check("R5.5", "latestDependency/missing-dependency→no-progress", ld.Pos(), okCmp, "fewer positions than registered dependencies returns position 0 (Converge then returns ErrNothingNew)")
+		rets := returnsFrom(missingEdges)
+		okCmp = len(rets) > 0
+		for _, r := range rets {
+			if loadReachableAfter(r, false) {
+				okCmp = false
+			}
+		}
+		c.Check("R5.5", "latestDependency/missing-dependency→no-progress", ld.Pos(), okCmp, "fewer positions than registered dependencies: the step returns without loading")
 	}
 
 	// ---- R5.3 ---------------------------------------------------------
@@ -546,3 +586,8 @@ func sameAddr(a, b ssa.Value) bool {
 	}
 	return false
 }
+
+// nonNilErrorMarker: a value that stands for "some non-nil error" in a scenario
+func nonNilErrorMarker(fn *ssa.Function) ssa.Value { return errMarker }
+
+var errMarker = &ssa.Alloc{}
